@@ -5,6 +5,7 @@ import (
 	"errors"
 	"fmt"
 	"reflect"
+	"sort"
 	"sync"
 
 	"github.com/graphql-go/graphql/gqlerrors"
@@ -150,6 +151,15 @@ func PlanQuery(schema *Schema, doc *ast.Document, operationName string) (*Plan, 
 		return nil, err
 	}
 
+	// A fragment that reaches itself through a field has no finite
+	// expansion: executing it only ends if the data does. Validation
+	// rejects every fragment cycle; for callers that skipped validation
+	// this is an error rather than unbounded recursion. (A cycle on one
+	// selection-set level is harmless: the visited set cuts it.)
+	if name := fragmentCycleThroughField(fragments); name != "" {
+		return nil, fmt.Errorf(`Cannot spread fragment "%v" within itself.`, name)
+	}
+
 	plan := &Plan{
 		schema:     schema,
 		operation:  operation,
@@ -159,6 +169,67 @@ func PlanQuery(schema *Schema, doc *ast.Document, operationName string) (*Plan, 
 	}
 	plan.root = plan.planSelectionSet(rootType, operation.GetSelectionSet(), nil)
 	return plan, nil
+}
+
+// fragmentCycleThroughField returns the name of a fragment that can
+// reach itself through at least one field's sub-selection, or "".
+func fragmentCycleThroughField(fragments map[string]ast.Definition) string {
+	type edge struct {
+		to     string
+		nested bool // the spread sits below a field of the spreading fragment
+	}
+	edges := map[string][]edge{}
+	var collect func(from string, set *ast.SelectionSet, nested bool)
+	collect = func(from string, set *ast.SelectionSet, nested bool) {
+		if set == nil {
+			return
+		}
+		for _, sel := range set.Selections {
+			switch sel := sel.(type) {
+			case *ast.FragmentSpread:
+				if sel.Name != nil {
+					edges[from] = append(edges[from], edge{sel.Name.Value, nested})
+				}
+			case *ast.Field:
+				collect(from, sel.SelectionSet, true)
+			case *ast.InlineFragment:
+				collect(from, sel.SelectionSet, nested)
+			}
+		}
+	}
+	names := make([]string, 0, len(fragments))
+	for name, def := range fragments {
+		names = append(names, name)
+		collect(name, def.GetSelectionSet(), false)
+	}
+	sort.Strings(names)
+	// reaches(a, b): b is reachable from a by one or more spreads.
+	reaches := func(from, target string) bool {
+		seen := map[string]bool{}
+		stack := []string{from}
+		for len(stack) > 0 {
+			cur := stack[len(stack)-1]
+			stack = stack[:len(stack)-1]
+			for _, e := range edges[cur] {
+				if e.to == target {
+					return true
+				}
+				if !seen[e.to] {
+					seen[e.to] = true
+					stack = append(stack, e.to)
+				}
+			}
+		}
+		return false
+	}
+	for _, name := range names {
+		for _, e := range edges[name] {
+			if e.nested && (e.to == name || reaches(e.to, name)) {
+				return name
+			}
+		}
+	}
+	return ""
 }
 
 // planSelectionSet pre-collects the fields under one selection-set
